@@ -27,7 +27,7 @@ OK == /\ Ev.n < 0 => (~Ev.accept /\ Ev.err)                                     
             /\ (S2 > T.limit /\ Ev.n <= acc[Ev.inst]) => Ev.lim = Ev.n
       /\ SumOver(acc, Insts) <= T.limit => SumOver(After, Insts) <= T.limit          \* the counts on record never sum above the limit
       /\ Ev.n >= 0 => ~Ev.err                                                          \* (sequential reports without request ids are never refused with an error)
-Next == l <= Len(T.events) /\ OK /\ l' = l + 1 /\ tr' = tr /\ acc' = After
+Next == l <= Len(T.events) /\ (OK = TRUE) /\ l' = l + 1 /\ tr' = tr /\ acc' = After
 Spec == Init /\ [][Next]_vars
 Judge == (l <= Len(T.events) /\ ~OK) => PrintT(<<"REJECT", T.id, l>>)
 =============================================================================
